@@ -8,7 +8,8 @@ K   : Lean model (PharmpyModel/C03/Model.lean) vs the real code, piece for piece
 Mon : the property statement on the real code: str(NMTranParser().parse(T)) == T (whole
       text and record by record), frame of insert/replace/remove on the parsed stream,
       code(update_source(read(T))) == T, and the single-edit frame (theta / omega / sigma
-      initial estimate, appended statement).
+      initial estimate, appended statement); an option appended to an option record
+      (OptionRecord.append_option): comments and other records preserved, option read back.
 """
 from __future__ import annotations
 
@@ -23,8 +24,8 @@ from .c03_util import attr_leaves, dec, dec_leaves, enc, lark_leaves, lark_tree_
 
 ID = "C03"
 DRIVER = "drv_c03"
-LEAN_TARGETS = ["PharmpyProofs.C03.Properties", "PharmpyProofs.C03.RecordProperties", "drv_c03"]
-PROPERTIES = ["PharmpyProofs/C03/Properties.lean", "PharmpyProofs/C03/RecordProperties.lean"]
+LEAN_TARGETS = ["PharmpyProofs.C03.Properties", "PharmpyProofs.C03.RecordProperties", "PharmpyProofs.C03.OptionProperties", "drv_c03"]
+PROPERTIES = ["PharmpyProofs/C03/Properties.lean", "PharmpyProofs/C03/RecordProperties.lean", "PharmpyProofs/C03/OptionProperties.lean"]
 LEAN_SOURCES = ["PharmpyModel/C03/*.lean", "PharmpyProofs/C03/*.lean", "Drivers/C03.lean", "PharmpyModel/C02/Record.lean", "PharmpyModel/C02/Lcs.lean",
                 "PharmpyProofs/C02/RecordLemmas.lean", "PharmpyProofs/C02/RecordProperties.lean", "PharmpyProofs/C02/Lemmas.lean", "PharmpyProofs/C02/Properties.lean"]
 TIME_LIMIT = {"quick": 900, "thorough": 3000}
@@ -35,7 +36,11 @@ RULE = ("kind=text: control streams generated record by record from the record g
         "newlines, comments), in NM-TRAN order or as a random bag, or one of the 92 shipped .mod files, each optionally passed through "
         "1-5 lexical mutations (CR LF, tabs/NUL, comments, blank lines, 3-letter abbreviations, case, indentation of `$`, continuations, "
         "inserted/deleted characters, unknown/duplicated records, text before the first record, final newline); every accepted text is "
-        "checked whole, record by record, tree by tree, plus seeded record operations. kind=model: a shipped model or a generated valid "
+        "checked whole, record by record, tree by tree, plus seeded record operations. kind=optedit: a stream with one option record "
+        "(INPUT, SUBROUTINES, TABLE, DATA, ESTIMATION, MODEL, SIZES, COVARIANCE, ETAS) built line by line whose end is drawn from layout classes "
+        "(option last / end-of-line comment + line break / comment at end of file / comment and blank lines after the last option / trailing "
+        "blanks / CR LF), or any generated / shipped text, and one option of the kind pharmpy itself appends, appended with append_option to one "
+        "of its option records. kind=model: a shipped model or a generated valid "
         "model, optionally layout-mutated, read with parse_model: no-op update_source and three single-component edits. kind=names / "
         "kind=ignored: exhaustive abbreviation table and random ignorable strings. non-trivial = text accepted by the parser with at "
         "least 2 records (text), model read and regenerated (model); distinct = distinct case JSON")
@@ -103,13 +108,28 @@ def gen_cases(rng: random.Random, n: int, tier: str):
                 text, mt = G.mutate(rng, text)
                 tags += ["mut:" + t for t in mt]
             out.append({"kind": "text", "text": text, "gen": tags, "seed": seed})
-        elif r < 0.72 and corpus:
+        elif r < 0.69 and corpus:
             nm, text = rng.choice(corpus)
             tags = ["src:corpus"]
             if rng.random() < 0.9:
                 text, mt = G.mutate(rng, text)
                 tags += ["mut:" + t for t in mt]
             out.append({"kind": "text", "text": text, "gen": tags, "origin": nm, "seed": seed})
+        elif r < 0.745 and corpus:
+            # option appended to an option record: dedicated layouts (2/3) or any generated / shipped text (1/3)
+            q = rng.random()
+            if q < 0.67:
+                text, okind, ending = G.gen_optedit(rng)
+                tags = ["src:generated-optedit", "optedit-ending:" + ending]
+            elif q < 0.84:
+                text, tags = G.gen_stream(rng), ["src:generated"]
+            else:
+                nm, text = rng.choice(corpus)
+                tags = ["src:corpus"]
+                if rng.random() < 0.7:
+                    text, mt = G.mutate(rng, text)
+                    tags += ["mut:" + t for t in mt]
+            out.append({"kind": "optedit", "text": text, "pick": rng.randrange(64), "kidx": rng.randrange(64), "gen": tags, "seed": seed})
         elif r < 0.81:
             text, steps = G.gen_chain_model(rng)
             out.append({"kind": "chain", "text": text, "steps": steps, "gen": ["src:generated-chain-model"], "seed": seed})
@@ -147,6 +167,12 @@ def corpus_cases():
     cases.append({"kind": "model", "gen": ["src:hand-model"], "seed": 13, "text":
                   "$PROBLEM x\n$INPUT ID DV\n$DATA none.csv IGNORE=@\n$PRED\nY=THETA(1)+THETA(2)+THETA(3)+THETA(4)+ETA(1)+EPS(1)\n"
                   "$THETA (0.0,0.10,1E3) 1 ; two\n$THETA (-INF,1,+5.0) (0,2,INF) FIX\n$OMEGA 0.1\n$SIGMA 1\n"})
+    # option appended to a record whose last item is an end-of-line comment (round 9): the option goes on a line of its own
+    for t, pick, kidx in [("$PROBLEM p\n$INPUT ID TIME DV ; observations\n       AMT        ; dose\n$DATA pheno.dta IGNORE=@\n", 0, 0),
+                          ("$PROBLEM p\n$INPUT ID DV\n$SUBROUTINES ADVAN1 TRANS2 ; one compartment\n$PK\nCL=THETA(1) ; c\n", 1, 0),
+                          ("$PROBLEM p\n$INPUT ID DV\n$TABLE ID TIME NOPRINT FILE=sdtab1 ; standard table", 1, 0),
+                          ("$PROBLEM p\n$DATA pheno.dta ; the data\r\n$EST METHOD=1 INTER ; foce-i\n  ; more\n\n", 0, 1)]:
+        cases.append({"kind": "optedit", "text": t, "pick": pick, "kidx": kidx, "gen": ["src:hand-optedit"], "seed": 17})
     for nm, text in corpus_files():
         cases.append({"kind": "text", "text": text, "gen": ["src:corpus", "unmutated"], "origin": nm, "seed": 3})
     for nm, text in corpus_files():
@@ -176,7 +202,7 @@ def shrink(case):
             c = dict(case); c["text"] = "".join(lines[:i] + lines[j:]); yield c
             i = j
         return
-    if case["kind"] not in ("text", "model"):
+    if case["kind"] not in ("text", "model", "optedit"):
         return
     t = case["text"]
     starts = [m.start() for m in re.finditer(r"^[ \t]*\$", t, flags=re.M)]
@@ -231,7 +257,8 @@ def worker_init():
     from pharmpy.model.external.nonmem.nmtran_parser import NMTranControlStream, NMTranParser  # noqa
     from pharmpy.model.external.nonmem.records import factory  # noqa
     from pharmpy.model.external.nonmem.records.raw_record import RawRecord  # noqa
-    global CodeRecord, Statements
+    global CodeRecord, Statements, OptionRecord
+    from pharmpy.model.external.nonmem.records.option_record import OptionRecord
     from pharmpy.model import Statements
     from pharmpy.model.external.nonmem.records.code_record import CodeRecord
     if not getattr(CodeRecord.update_statements, "_c03_hook", False):
@@ -293,6 +320,8 @@ def run_case(case, drv):
         return run_model(case, drv)
     if kind == "chain":
         return run_chain(case, drv)
+    if kind == "optedit":
+        return run_optedit(case, drv)
     if kind == "names":
         return run_names(case, drv)
     if kind == "ignored":
@@ -552,6 +581,130 @@ def run_record_ops(cs, rng, drv, k, mon, tags):
             m = drv.ask(req)
             if m != code:
                 k.append(f"{op}: model {m} code {code} (records {[r.name for r in recs]}, new {[n.name for n in news]})")
+
+
+# ---------------------------------------------------------------- option appended to an option record
+
+# comments are judged on the parser's own COMMENT tokens (in $DATA `RECORDS=10; x` reads `10;` as a value: not a comment to pharmpy)
+
+
+def _child_rule(c):
+    return str(c.rule)
+
+
+def run_optedit(case, drv):
+    """OptionRecord.append_option on one record of a parsed stream: K on `_append_option_args` / `append_option_node`
+    (children by identity) and the clause "after a modification every record and every comment that does not express the
+    modified component is preserved exactly and in order" on the printed and re-read stream."""
+    T = case["text"]
+    k, mon = [], []
+    tags = list(case.get("gen", []))
+    try:
+        cs = NMTranParser().parse(T)
+    except Exception as e:
+        tags.append("refused:" + _exc(e))
+        return {"k": k, "mon": mon, "tags": tags, "nontrivial": False}
+    if str(cs) != T:
+        return {"k": k, "mon": mon, "tags": tags + ["optedit-roundtrip-differs(judged by kind=text)"], "nontrivial": False}
+    cands = [r for r in cs.records if isinstance(r, OptionRecord) and r.name in G.APPEND_OPTS]
+    if not cands:
+        tags.append("optedit-no-option-record")
+        return {"k": k, "mon": mon, "tags": tags, "nontrivial": False}
+    rec = cands[case["pick"] % len(cands)]
+    table = G.APPEND_OPTS[rec.name]
+    key, value = table[case["kidx"] % len(table)]
+    children = list(rec.root.children)
+    rules = [_child_rule(c) for c in children]
+    tags += ["optedit-record:" + rec.name, "optedit-children=" + str(min(len(children), 20) // 5 * 5) + "+"]
+    last_sig = next((r for r in reversed(rules) if r not in ("WS", "NEWLINE")), "none")
+    tags.append("optedit-last-item:" + (last_sig if last_sig in ("option", "COMMENT", "none") else "other"))
+    if last_sig == "COMMENT":
+        i_c = max(i for i, r in enumerate(rules) if r == "COMMENT")
+        tags.append("optedit-comment-followed-by:" + (rules[i_c + 1] if i_c + 1 < len(rules) else "end"))
+    what = f"append_option({key!r}, {value!r}) on ${rec.name} {str(rec)!r}"
+    # ---- the real edit
+    try:
+        args = rec._append_option_args()
+        new = rec.append_option(key, value)
+        code = ["ok", str(args[0]), str(args[1]), str(args[2].rule)]
+    except IndexError:
+        new = None
+        code = ["err", "IndexError"]          # empty root (`$INPUT` and nothing else): children[-1]
+        tags.append("optedit-refused:IndexError")
+    except (ValueError, AssertionError) as e:
+        new = None
+        code = None                            # refusal of the record class (option_defs: duplicate / bad value)
+        tags.append("optedit-refused:" + _exc(e))
+    # ---- K
+    if drv is not None and code is not None:
+        ans = drv.ask(["appendoption", rules])
+        if ans[0] == "ok" and new is not None:
+            ids = {id(c): i for i, c in enumerate(children)}
+
+            def uid(c):
+                if id(c) in ids:
+                    return str(ids[id(c)])
+                r = _child_rule(c)
+                if r == "option":
+                    return "1000000"
+                if r == "WS" and str(c) == " ":
+                    return "1000001"
+                if r == "NEWLINE" and str(c) == "\n":
+                    return "1000002"
+                return "?" + r
+            real = [uid(c) for c in new.root.children]
+            if ans[1:4] != code[1:4]:
+                k.append(f"_append_option_args of {what}: model {ans[1:4]} code {code[1:4]} (rules {rules})")
+            if ans[4] != real:
+                k.append(f"append_option_node of {what}: new children: model {ans[4]} code {real} (rules {rules})")
+            if ans[5] == "true" and ans[6] != "true":
+                k.append(f"{what}: Lean model contradicts its theorem (commentsOk {ans[5]} -> {ans[6]})")
+        elif ans[:2] != code[:2]:
+            k.append(f"{what}: model {ans} code {code}")
+    if new is None:
+        return {"k": k, "mon": mon, "tags": tags, "nontrivial": False}
+    tags.append("optedit-done")
+    # ---- Mon: the statement on the printed and re-read code
+    cs2 = cs.replace_records([rec], [new])
+    code2 = str(cs2)
+    pos = next(i for i, r in enumerate(cs.records) if r is rec)
+    try:
+        recs2 = list(NMTranParser().parse(code2).records)
+    except Exception as e:
+        mon.append({"cls": "append-option-unparseable", "what": f"after {what} the printed stream is not accepted ({_exc(e)})"})
+        return {"k": k, "mon": mon, "tags": tags, "nontrivial": True}
+    old_strs = [str(r) for r in cs.records]
+    if len(recs2) != len(old_strs) or [str(r) for j, r in enumerate(recs2) if j != pos] != [s_ for j, s_ in enumerate(old_strs) if j != pos]:
+        mon.append({"cls": "append-option-changes-other-records", "what": f"after {what} the other records of the stream are not preserved "
+                    "exactly and in order: " + first_diff(T, code2)})
+        return {"k": k, "mon": mon, "tags": tags, "nontrivial": True}
+    rec2 = recs2[pos]
+    old_comments = [v for r_, v in attr_leaves(rec.root) if r_ == "COMMENT"]
+    new_comments = [v for r_, v in attr_leaves(rec2.root) if r_ == "COMMENT"] if hasattr(rec2, "root") else None
+    if new_comments != old_comments:
+        cls = "append-option-alters-comment"
+        if new_comments is not None and len(new_comments) == len(old_comments) and all(b.startswith(a) for a, b in zip(old_comments, new_comments)):
+            cls = "append-option-lands-in-trailing-comment"
+        mon.append({"cls": cls, "what": f"after {what} the comments of the record are {new_comments!r}, were {old_comments!r}; printed {str(new)!r}"})
+    def _bare(r):
+        return "".join(v for r_, v in attr_leaves(r.root) if r_ not in ("COMMENT", "WS", "NEWLINE"))
+    if hasattr(rec2, "root") and _bare(rec2) == _bare(rec):
+        mon.append({"cls": "append-option-not-read-back", "what": f"after {what} the printed record {str(rec2)!r} re-read has the same content "
+                    "outside comments as before: the appended option is not expressed"})
+    elif isinstance(rec2, OptionRecord) and rec.name != "DATA":      # $DATA has rules of its own (ignchar, …) that all_options does not list
+        old_opts = [(o.key, o.value) for o in rec.all_options]
+        new_opts = [(o.key, o.value) for o in rec2.all_options]
+        if new_opts[:len(old_opts)] != old_opts or len(new_opts) > len(old_opts) + 1:
+            mon.append({"cls": "append-option-changes-existing-options", "what": f"after {what} the options read back are {new_opts}, were {old_opts}"})
+        elif new_opts[len(old_opts):] != [(key, value)]:
+            mon.append({"cls": "append-option-not-read-back", "what": f"after {what} the appended option is not an option of the printed record "
+                        f"{str(rec2)!r} (options {new_opts})"})
+    # the children other than a trailing blank are the same objects, in order
+    kept = [c for c in new.root.children if any(c is o for o in children)]
+    want = children[:-1] if children and _child_rule(children[-1]) == "WS" else children
+    if len(kept) != len(want) or any(a is not b for a, b in zip(kept, want)):
+        mon.append({"cls": "append-option-drops-or-reorders-nodes", "what": f"after {what} the nodes of the record were not kept in order"})
+    return {"k": k, "mon": mon, "tags": tags, "nontrivial": True}
 
 
 # ---------------------------------------------------------------- model level
